@@ -104,13 +104,13 @@ def evalAttrs (h ph : Heap) (fs : List Frame) : List (QName × AVal) → Except 
 def isStripSpace (c : Char) : Bool :=
   c = ' ' || (9 ≤ c.toNat && c.toNat ≤ 13) || (28 ≤ c.toNat && c.toNat ≤ 31)
 
-/-- `v is not None and str(v).strip() or None` -/
+/-- `None if v is None else str(v).strip()` (genshi fix ec9dd78: an empty value is kept; before it
+    `v is not None and str(v).strip() or None` removed the attribute) -/
 def attrText : Val → Except Err (Option Str)
   | .atom .none => .ok none
   | .atom a =>
     if a.text.all (fun c => c.toNat < 128) then
-      let s := Genshi.Str.stripBy isStripSpace a.text
-      .ok (if s.isEmpty then none else some s)
+      .ok (some (Genshi.Str.stripBy isStripSpace a.text))
     else .error .unmodelled
   | _ => .error .unmodelled
 
